@@ -106,3 +106,28 @@ Example C04_upload_example :
   let tr := w_trace (snd (steps w0 [AConnect [104%N] 21%N None; AUpload UStor [102%N] [[1;2]; [3]; [4;5;6]; []; [9]]%N None])) in
   net_out_bytes (ios tr) = [1;2;3;4;5;6]%N.
 Proof. exact upload_example. Qed.
+
+(* ---- end of data before the reply, over every call, every state, every server (Eof_Global.v) ---- *)
+From LibFtp Require Eof_Global.
+
+(* once a call has written to a data connection it reads no reply until it has signalled the end of the data by the orderly
+   shutdown of that connection - unless the transfer callback has said 'cancelled' *)
+Theorem C04_no_reply_read_before_the_end_of_data_is_signalled : forall a w,
+  exists tr, w_trace (snd (step w a)) = w_trace w ++ tr /\ Eof_Global.okhs false tr.
+Proof. exact Eof_Global.step_reads_no_reply_before_the_end_of_data_is_signalled. Qed.
+Print Assumptions C04_no_reply_read_before_the_end_of_data_is_signalled.
+
+Theorem C04_reply_read_after_the_end_was_signalled : forall a w tr pre t r post,
+  w_trace (snd (step w a)) = w_trace w ++ tr -> tr = pre ++ ERecv t r :: post -> Eof_Global.hsafter false pre = false.
+Proof. exact Eof_Global.reply_read_after_the_end_was_signalled. Qed.
+Print Assumptions C04_reply_read_after_the_end_was_signalled.
+
+Example C04_example_eof_then_reply :
+  let w0 := init_world (mkConfig Passive true TBinary false false) Eof_Global.eof_script in
+  let w1 := snd (steps w0 [AConnect [104] 21 None]) in
+  let tr := skipn (length (w_trace w1)) (w_trace (snd (step w1 (AUpload UStor [102] [[1;2]; [3]] None)))) in
+  filter (fun e => match e with EIo (IoNetWrite _) | EData DTcpShutdown | ERecv _ _ => true | _ => false end) tr
+  = [ERecv 1 (mkReply 229 [40;124;124;124;53;124;41]); ERecv 2 (mkReply 150 []); EIo (IoNetWrite [1;2]); EIo (IoNetWrite [3]);
+     EData DTcpShutdown; ERecv 2 (mkReply 226 [])]
+  /\ Eof_Global.okhs false tr.
+Proof. exact Eof_Global.eof_example. Qed.
